@@ -106,6 +106,183 @@ Theorem C01_slice_kernel_matches_source : forall start stop step s p x m, 1 <= s
 Proof. exact bridge_slice_update. Qed.
 Print Assumptions C01_slice_kernel_matches_source.
 
+(* ---- node bridges (harness/mkprops_nodes.py): begin ---- *)
+(* The update methods of the node classes are the ones regenerated from the source under test on this run:
+   Gen/KN_<class>.v is written by harness/gen_nodes.py from the python AST of streamz/core.py, statement by statement,
+   in the monad of Base/MiniPy.v; Base/BridgeNodes.v proves that it is the update function of Sync/Nodes.v.
+   `run` form: additionally the method never raises after an effect (RLate); `update` form: the model's
+   option (list action).  For combine_latest / zip_latest (and partition_unique) the equality is modulo
+   retains / releases of an EMPTY metadata list, which Pipeline.run_actions ignores (strip_run_actions). *)
+From SZ Require Import Base.MiniPy Base.BridgeNodes.
+Theorem C01_update_accumulate_matches_source :
+  forall f start rs ws s p x m, Gen.KN_accumulate.gen_update_accumulate f rs ws s p x m = update (KAccum f start rs ws) s p x m.
+Proof. exact (fun f start => bridge_update_accumulate f start). Qed.
+Print Assumptions C01_update_accumulate_matches_source.
+Theorem C01_run_accumulate_matches_source :
+  forall f start rs ws s p x m, Gen.KN_accumulate.gen_run_accumulate f rs ws s p x m = of_option (update (KAccum f start rs ws) s p x m).
+Proof. exact (fun f start => bridge_run_accumulate f start). Qed.
+Print Assumptions C01_run_accumulate_matches_source.
+Theorem C01_update_map_matches_source :
+  forall f s p x m, Gen.KN_map.gen_update_map f s p x m = update (KMap f) s p x m.
+Proof. exact bridge_update_map. Qed.
+Print Assumptions C01_update_map_matches_source.
+Theorem C01_run_map_matches_source :
+  forall f s p x m, Gen.KN_map.gen_run_map f s p x m = of_option (update (KMap f) s p x m).
+Proof. exact bridge_run_map. Qed.
+Print Assumptions C01_run_map_matches_source.
+Theorem C01_update_filter_matches_source :
+  forall f s p x m, Gen.KN_filter.gen_update_filter f s p x m = update (KFilter f) s p x m.
+Proof. exact bridge_update_filter. Qed.
+Print Assumptions C01_update_filter_matches_source.
+Theorem C01_run_filter_matches_source :
+  forall f s p x m, Gen.KN_filter.gen_run_filter f s p x m = of_option (update (KFilter f) s p x m).
+Proof. exact bridge_run_filter. Qed.
+Print Assumptions C01_run_filter_matches_source.
+Theorem C01_update_starmap_matches_source :
+  forall f s p x m, Gen.KN_starmap.gen_update_starmap f [] s p x m = update (KStarmap f) s p x m.
+Proof. exact bridge_update_starmap. Qed.
+Print Assumptions C01_update_starmap_matches_source.
+Theorem C01_run_starmap_matches_source :
+  forall f s p x m, Gen.KN_starmap.gen_run_starmap f [] s p x m = of_option (update (KStarmap f) s p x m).
+Proof. exact bridge_run_starmap. Qed.
+Print Assumptions C01_run_starmap_matches_source.
+Theorem C01_update_pluck_matches_source :
+  forall pk s p x m, Gen.KN_pluck.gen_update_pluck pk s p x m = update (KPluck pk) s p x m.
+Proof. exact bridge_update_pluck. Qed.
+Print Assumptions C01_update_pluck_matches_source.
+Theorem C01_run_pluck_matches_source :
+  forall pk s p x m, Gen.KN_pluck.gen_run_pluck pk s p x m = of_option (update (KPluck pk) s p x m).
+Proof. exact bridge_run_pluck. Qed.
+Print Assumptions C01_run_pluck_matches_source.
+Theorem C01_update_flatten_matches_source :
+  forall s p x m, Gen.KN_flatten.gen_update_flatten s p x m = update (KFlatten) s p x m.
+Proof. exact bridge_update_flatten. Qed.
+Print Assumptions C01_update_flatten_matches_source.
+Theorem C01_run_flatten_matches_source :
+  forall s p x m, Gen.KN_flatten.gen_run_flatten s p x m = of_option (update (KFlatten) s p x m).
+Proof. exact bridge_run_flatten. Qed.
+Print Assumptions C01_run_flatten_matches_source.
+Theorem C01_update_partition_matches_source :
+  forall n key s p x m, Gen.KN_partition.gen_update_partition n key s p x m = update (KPartition n key) s p x m.
+Proof. exact bridge_update_partition. Qed.
+Print Assumptions C01_update_partition_matches_source.
+Theorem C01_run_partition_matches_source :
+  forall n key s p x m, Gen.KN_partition.gen_run_partition n key s p x m = of_option (update (KPartition n key) s p x m).
+Proof. exact bridge_run_partition. Qed.
+Print Assumptions C01_run_partition_matches_source.
+Theorem C01_coroutine_partition_matches_source :
+  forall n key, is_coroutine (KPartition n key) = Gen.KN_partition.gen_is_coroutine_partition.
+Proof. exact bridge_coroutine_partition. Qed.
+Print Assumptions C01_coroutine_partition_matches_source.
+Theorem C01_update_sliding_window_matches_source :
+  forall n partial s p x m, 1 <= n ->
+  Gen.KN_sliding_window.gen_update_sliding_window n partial s p x m = update (KSliding n partial) s p x m.
+Proof. exact bridge_update_sliding_window. Qed.
+Print Assumptions C01_update_sliding_window_matches_source.
+Theorem C01_run_sliding_window_matches_source :
+  forall n partial s p x m, 1 <= n ->
+  Gen.KN_sliding_window.gen_run_sliding_window n partial s p x m = of_option (update (KSliding n partial) s p x m).
+Proof. exact bridge_run_sliding_window. Qed.
+Print Assumptions C01_run_sliding_window_matches_source.
+Theorem C01_update_unique_matches_source :
+  forall maxsize key s p x m, Gen.KN_unique.gen_update_unique maxsize key s p x m = update (KUnique maxsize key) s p x m.
+Proof. exact bridge_update_unique. Qed.
+Print Assumptions C01_update_unique_matches_source.
+Theorem C01_run_unique_matches_source :
+  forall maxsize key s p x m, Gen.KN_unique.gen_run_unique maxsize key s p x m = of_option (update (KUnique maxsize key) s p x m).
+Proof. exact bridge_run_unique. Qed.
+Print Assumptions C01_run_unique_matches_source.
+Theorem C01_update_collect_matches_source :
+  forall s p x m, Gen.KN_collect.gen_update_collect s p x m = update (KCollect) s p x m.
+Proof. exact bridge_update_collect. Qed.
+Print Assumptions C01_update_collect_matches_source.
+Theorem C01_run_collect_matches_source :
+  forall s p x m, Gen.KN_collect.gen_run_collect s p x m = of_option (update (KCollect) s p x m).
+Proof. exact bridge_run_collect. Qed.
+Print Assumptions C01_run_collect_matches_source.
+Theorem C01_flush_collect_matches_source :
+  forall s, Gen.KN_collect.gen_flush_collect s = RSome (flush_actions s).
+Proof. exact bridge_flush_collect. Qed.
+Print Assumptions C01_flush_collect_matches_source.
+Theorem C01_update_slice_matches_source :
+  forall start stop step s p x m, st_detached s = false ->
+  Gen.KN_slice.gen_update_slice start stop step s p x m = update (KSlice start stop step) s p x m.
+Proof. exact bridge_update_slice. Qed.
+Print Assumptions C01_update_slice_matches_source.
+Theorem C01_run_slice_matches_source :
+  forall start stop step s p x m, st_detached s = false ->
+  Gen.KN_slice.gen_run_slice start stop step s p x m = of_option (update (KSlice start stop step) s p x m).
+Proof. exact bridge_run_slice. Qed.
+Print Assumptions C01_run_slice_matches_source.
+Theorem C01_update_union_matches_source :
+  forall s p x m, Gen.KN_union.gen_update_union s p x m = update (KUnion) s p x m.
+Proof. exact bridge_update_union. Qed.
+Print Assumptions C01_update_union_matches_source.
+Theorem C01_run_union_matches_source :
+  forall s p x m, Gen.KN_union.gen_run_union s p x m = of_option (update (KUnion) s p x m).
+Proof. exact bridge_run_union. Qed.
+Print Assumptions C01_run_union_matches_source.
+Theorem C01_update_Stream_matches_source :
+  forall s p x m, Gen.KN_Stream.gen_update_Stream s p x m = update (KSource) s p x m.
+Proof. exact bridge_update_Stream. Qed.
+Print Assumptions C01_update_Stream_matches_source.
+Theorem C01_run_Stream_matches_source :
+  forall s p x m, Gen.KN_Stream.gen_run_Stream s p x m = of_option (update (KSource) s p x m).
+Proof. exact bridge_run_Stream. Qed.
+Print Assumptions C01_run_Stream_matches_source.
+Theorem C01_update_zip_matches_source :
+  forall lits maxsize s p x m, p < length (st_ports s) ->
+  Gen.KN_zip.gen_update_zip lits maxsize s p x m = update (KZip lits) s p x m.
+Proof. exact bridge_update_zip. Qed.
+Print Assumptions C01_update_zip_matches_source.
+Theorem C01_run_zip_matches_source :
+  forall lits maxsize s p x m, p < length (st_ports s) ->
+  Gen.KN_zip.gen_run_zip lits maxsize s p x m = of_option (update (KZip lits) s p x m).
+Proof. exact bridge_run_zip. Qed.
+Print Assumptions C01_run_zip_matches_source.
+Theorem C01_strip_has_no_effect : forall emit coro d l w, run_actions emit coro d (strip l) w = run_actions emit coro d l w.
+Proof. exact strip_run_actions. Qed.
+Print Assumptions C01_strip_has_no_effect.
+Theorem C01_update_combine_latest_matches_source :
+  forall eo s p x m, p < length (st_last s) ->
+  option_map strip (Gen.KN_combine_latest.gen_update_combine_latest eo s p x m) = option_map strip (update (KCombineLatest eo) s p x m).
+Proof. exact bridge_update_combine_latest. Qed.
+Print Assumptions C01_update_combine_latest_matches_source.
+Theorem C01_run_combine_latest_matches_source :
+  forall eo s p x m, p < length (st_last s) ->
+  strip_r (Gen.KN_combine_latest.gen_run_combine_latest eo s p x m) = strip_r (of_option (update (KCombineLatest eo) s p x m)).
+Proof. exact bridge_run_combine_latest. Qed.
+Print Assumptions C01_run_combine_latest_matches_source.
+Theorem C01_update_zip_latest_matches_source :
+  forall s p x m, p < length (st_last s) ->
+  option_map strip (Gen.KN_zip_latest.gen_update_zip_latest s p x m) = option_map strip (update (KZipLatest) s p x m).
+Proof. exact bridge_update_zip_latest. Qed.
+Print Assumptions C01_update_zip_latest_matches_source.
+Theorem C01_run_zip_latest_matches_source :
+  forall s p x m, p < length (st_last s) ->
+  strip_r (Gen.KN_zip_latest.gen_run_zip_latest s p x m) = strip_r (of_option (update (KZipLatest) s p x m)).
+Proof. exact bridge_run_zip_latest. Qed.
+Print Assumptions C01_run_zip_latest_matches_source.
+Theorem C01_update_partition_unique_matches_source :
+  forall n key kl s p x m, pu_inv (st_keyed s) ->
+  option_map strip (Gen.KN_partition_unique.gen_update_partition_unique n key kl s p x m) = option_map strip (update (KPartUnique n key kl) s p x m).
+Proof. exact bridge_update_partition_unique. Qed.
+Print Assumptions C01_update_partition_unique_matches_source.
+Theorem C01_run_partition_unique_matches_source :
+  forall n key kl s p x m, pu_inv (st_keyed s) ->
+  strip_r (Gen.KN_partition_unique.gen_run_partition_unique n key kl s p x m) = strip_r (of_option (update (KPartUnique n key kl) s p x m)).
+Proof. exact bridge_run_partition_unique. Qed.
+Print Assumptions C01_run_partition_unique_matches_source.
+Theorem C01_partition_unique_invariant :
+  forall n key kl s p x m acts s', pu_inv (st_keyed s) -> update (KPartUnique n key kl) s p x m = Some acts -> In (ASet s') acts -> pu_inv (st_keyed s').
+Proof. exact pu_inv_preserved. Qed.
+Print Assumptions C01_partition_unique_invariant.
+Theorem C01_partition_unique_invariant_init :
+  forall n key kl nups, pu_inv (st_keyed (init_state (KPartUnique n key kl) nups)).
+Proof. exact pu_inv_init. Qed.
+Print Assumptions C01_partition_unique_invariant_init.
+(* ---- node bridges (harness/mkprops_nodes.py): end ---- *)
+
 (* ---- generated by harness/mkprops_sync.py: begin ---- *)
 From SZ Require Sync.NodeSem2.
 Section G_sem_accumulate_full.
